@@ -9,6 +9,7 @@ import (
 	"go/token"
 	"go/types"
 	"strings"
+	"time"
 
 	"golang.org/x/tools/go/ssa"
 )
@@ -83,6 +84,7 @@ type Interp struct {
 	models       map[string]int
 	assumes      map[string]bool
 	sch          schedState
+	deadline     time.Time
 }
 
 func (in *Interp) fresh(prefix string, w int) *Term {
